@@ -216,10 +216,12 @@ impl LruShim {
             (x == k && final(self).cview()[x] == v) || (old(self).cview().contains_key(x) && final(self).cview()[x] == old(self).cview()[x]),
     { unimplemented!() }
 }
-/// cache invariant: whatever the cache holds for a revision is the FULL order of that revision
+/// cache invariant: whatever the cache holds for a revision is the FULL order of that revision (and only revisions with a
+/// well-formed chain are cached: this makes the invariant stable when the tree / the store grow, lemma_cache_inv_grows)
 pub open spec fn cache_inv(c: LruShim, m: RevMap, objs: Objs) -> bool {
     forall|k: Revision| #[trigger] c.cview().contains_key(k) ==>
         c.cview()[k].patch.is_none() && c.cview()[k].order.is_some() && c.cview()[k].order.unwrap()@ == spec_order(m, objs, k)
+        && chain_ok(m, objs, k)
 }
 
 // ---------------------------------------------------------------- submitting a new version (create_delta_array_descriptor)
@@ -232,5 +234,68 @@ pub open spec fn delta_of(o: JObj, base: Seq<Value>, target: Seq<Value>) -> bool
     match obj_desc(o) {
         Some(DescV::Diff(p)) => p.len() > 0 && is_patch_of(p, base, target) && ops_ok(base, p, 0) && apply_ops(base, p, 0) == target,
         _ => false,
+    }
+}
+
+// ---------------------------------------------------------------- C16 end to end: storing a version and reading it back
+/// (m2, objs2) is (m, objs) after recording the fresh revision r: nothing recorded / readable before is changed
+pub open spec fn grows(m: RevMap, objs: Objs, m2: RevMap, objs2: Objs, r: Revision) -> bool {
+    &&& !m.contains_key(r) && !is_parent(m, r)
+    &&& forall|k: Revision| k != r ==> (#[trigger] m2.contains_key(k) <==> m.contains_key(k))
+    &&& forall|k: Revision| #[trigger] m.contains_key(k) ==> m2[k] == m[k]
+    &&& forall|k: Revision| #[trigger] objs.contains_key(k) ==> objs2.contains_key(k) && objs2[k] == objs[k]
+}
+/// frame: the order of an existing revision with a well-formed chain does not depend on later additions
+pub proof fn lemma_frame(m: RevMap, objs: Objs, m2: RevMap, objs2: Objs, r: Revision, x: Revision)
+    requires tree_wf(m), grows(m, objs, m2, objs2, r), x != r, chain_ok(m, objs, x),
+    ensures chain_ok(m2, objs2, x), spec_order(m2, objs2, x) == spec_order(m, objs, x),
+    decreases x.index
+{
+    assert(objs.contains_key(x));
+    assert(desc_at(objs2, x) == desc_at(objs, x));
+    match desc_at(objs, x) {
+        Some(DescV::Diff(p)) => {
+            assert(m2.contains_key(x) <==> m.contains_key(x));
+            if m.contains_key(x) { assert(m2[x] == m[x]); }
+            assert(parent_of(m2, x) == parent_of(m, x));
+            match parent_of(m, x) {
+                Some(q) => {
+                    assert(m.contains_key(x) && m[x].parent == Some(q));
+                    assert(q != r) by { if q == r { assert(is_parent(m, r)); } }
+                    lemma_frame(m, objs, m2, objs2, r, q);
+                }
+                None => {}
+            }
+        }
+        _ => {}
+    }
+}
+/// every stored version reconstructs to exactly the array that was submitted: when the object produced by
+/// `create_delta_array_descriptor` (an edit script against the order of w) is stored at a fresh child r of w,
+/// the order of r is the submitted array, and the chain of r is well formed (so `rebuild_array_order` returns it,
+/// whatever the cache holds and however long the chain below w is)
+pub proof fn lemma_stored_version_reconstructs(m: RevMap, objs: Objs, m2: RevMap, objs2: Objs, w: Revision, r: Revision, o: JObj, n: Seq<Value>)
+    requires
+        tree_wf(m), grows(m, objs, m2, objs2, r), chain_ok(m, objs, w),
+        w.index < r.index, m2.contains_key(r) && m2[r].parent == Some(w),
+        objs2.contains_key(r) && objs2[r] == o,
+        delta_of(o, spec_order(m, objs, w), n),
+    ensures chain_ok(m2, objs2, r), spec_order(m2, objs2, r) == n,
+{
+    lemma_frame(m, objs, m2, objs2, r, w);
+}
+/// ... and a full descriptor reconstructs to itself
+pub proof fn lemma_stored_full_reconstructs(m2: RevMap, objs2: Objs, r: Revision, o: JObj)
+    requires objs2.contains_key(r) && objs2[r] == o, obj_desc(o).is_some() && obj_desc(o).unwrap() is Full,
+    ensures chain_ok(m2, objs2, r), spec_order(m2, objs2, r) == submitted(o),
+{ }
+/// the cache invariant survives the growth of the tree and of the store (no invalidation is needed)
+pub proof fn lemma_cache_inv_grows(c: LruShim, m: RevMap, objs: Objs, m2: RevMap, objs2: Objs, r: Revision)
+    requires tree_wf(m), grows(m, objs, m2, objs2, r), cache_inv(c, m, objs), !c.cview().contains_key(r),
+    ensures cache_inv(c, m2, objs2),
+{
+    assert forall|k: Revision| #[trigger] c.cview().contains_key(k) implies
+        c.cview()[k].patch.is_none() && c.cview()[k].order.is_some() && c.cview()[k].order.unwrap()@ == spec_order(m2, objs2, k) && chain_ok(m2, objs2, k) by {
+        lemma_frame(m, objs, m2, objs2, r, k);
     }
 }
